@@ -17,6 +17,7 @@ import (
 	corev1 "k8s.io/api/core/v1"
 	metav1 "k8s.io/apimachinery/pkg/apis/meta/v1"
 	"k8s.io/apimachinery/pkg/runtime"
+	"k8s.io/client-go/tools/cache"
 	ktesting "k8s.io/client-go/testing"
 	"k8s.io/utils/pointer"
 
@@ -56,6 +57,20 @@ func ctickp(t *metav1.Time) int {
 }
 func ctime(tick int) time.Time { return time.Unix(cronBase+int64(tick)*60, 0) }
 
+// csec / csecp: seconds since the base instant (-1: none); the unit of every time in the trace.
+func csec(t time.Time) int {
+	if t.IsZero() {
+		return -1
+	}
+	return int(t.Unix() - cronBase)
+}
+func csecp(t *metav1.Time) int {
+	if t == nil || t.IsZero() {
+		return -1
+	}
+	return csec(t.Time)
+}
+
 // ---- projection ----
 
 type CJC struct {
@@ -75,24 +90,25 @@ type CJob struct {
 	Jc      string `json:"jc"`     // name of the controller owner
 	OwnerOk bool   `json:"ownerok"` // exactly one controller owner reference, to the JobConfig of that name and uid
 	LabelOk bool   `json:"labelok"` // jobconfig-uid label = owner uid
-	Sched   int    `json:"sched"`   // schedule-time annotation in ticks (-1 none)
-	SchedS  int    `json:"scheds"`  // seconds offset of the annotation inside its tick (0 when on the minute)
+	Sched   int    `json:"sched"`   // schedule-time annotation in seconds since the base (-1 none)
+	Uid     string `json:"uid"`     // uid of the controller owner
 	NameOk  bool   `json:"nameok"`  // name = <jobconfig name>-<unix of the schedule time> (independent formula)
 	Started bool   `json:"started"`
 	Term    bool   `json:"term"`
 }
 type CFire struct {
-	Jc string `json:"jc"`
-	T  int    `json:"t"`
-	S  int    `json:"s"` // seconds offset inside the tick (must be 0 for minute-step schedules)
+	Jc    string `json:"jc"`
+	T     int    `json:"t"`     // seconds since the base
+	KeyOk bool   `json:"keyok"` // the work-queue key of this request splits back into (JobConfig key, time)
 }
 type CState struct {
-	Now     int            `json:"now"`
-	NowS    int            `json:"nows"` // seconds into the tick
+	Now     int            `json:"now"` // seconds since the base
+	Gen     int            `json:"gen"` // controller generation (restarts so far)
 	Api     map[string]CJC `json:"api"`
 	Cache   map[string]CJC `json:"cache"`
 	Evq     int            `json:"evq"`
 	Chan    int            `json:"chan"`
+	ChanJC  []string       `json:"chanjc"` // JobConfigs queued for a flush, in order
 	HNames  []string       `json:"hnames"` // heap slice order
 	HPrio   []int          `json:"hprio"`  // priorities in ticks
 	HIndex  map[string]int `json:"hindex"`
@@ -105,8 +121,9 @@ type CState struct {
 	Pend    string         `json:"pend"`
 	Counter map[string]int `json:"counter"`
 	MaxMiss int            `json:"maxmiss"`
-	MaxDown int            `json:"maxdown"` // ticks
+	MaxDown int            `json:"maxdown"` // seconds
 	Quiet   bool           `json:"quiet"`
+	Booted  bool           `json:"booted"`
 }
 type CLine struct {
 	Ev      string  `json:"ev"`
@@ -118,7 +135,7 @@ type CLine struct {
 	Fired   []CFire `json:"fired"`   // (jc, t) enqueued by this step (Work)
 	Skipped []CFire `json:"skipped"` // schedules the reconciler skipped in this step (Forbid / queue limit)
 	NewVer  int     `json:"newver"`  // UserSet: the schedule version it installs (-1: none)
-	Due     []int   `json:"due"`     // UserSet: ticks in [0, horizon] matching that version (pointwise oracle)
+	Due     []int   `json:"due"`     // UserSet: seconds in [0, horizon] matching that version (pointwise oracle)
 	Faulted bool    `json:"faulted"`
 	St      CState  `json:"st"`
 }
@@ -152,6 +169,8 @@ type CR struct {
 	worker   *croncontroller.CronWorker
 	gen      int
 	chanN    int
+	chanJC   []string
+	booted   bool
 	fired    []CFire
 	skipped  []CFire
 	vers     map[string]int // jc name -> current version number
@@ -162,6 +181,7 @@ type CR struct {
 	store    *activejobstore.Store
 	cronCfg  *configv1alpha1.CronExecutionConfig
 	admit    *sw.Admission
+	cc       *croncontroller.Context
 	specs    map[string]CSched
 }
 
@@ -170,7 +190,11 @@ type cronUpdateHandler struct {
 	real croncontroller.UpdateHandler
 }
 
-func (h *cronUpdateHandler) OnUpdate(jc *execution.JobConfig) { h.c.chanN++; h.real.OnUpdate(jc) }
+func (h *cronUpdateHandler) OnUpdate(jc *execution.JobConfig) {
+	h.c.chanN++
+	h.c.chanJC = append(h.c.chanJC, jc.Name)
+	h.real.OnUpdate(jc)
+}
 
 type cronEnqueue struct {
 	c    *CR
@@ -178,7 +202,14 @@ type cronEnqueue struct {
 }
 
 func (h *cronEnqueue) EnqueueJobConfig(jc *execution.JobConfig, ts time.Time) error {
-	h.c.fired = append(h.c.fired, CFire{Jc: jc.Name, T: ctick(ts), S: int((ts.Unix() - cronBase) % 60)})
+	key, _ := croncontroller.JobConfigKeyFunc(jc, ts)
+	ok := false
+	if kns, kname, err := cache.SplitMetaNamespaceKey(key); err == nil {
+		if n, t, err := croncontroller.SplitJobConfigKeyName(kname); err == nil {
+			ok = kns == jc.Namespace && n == jc.Name && t.Equal(time.Unix(ts.Unix(), 0))
+		}
+	}
+	h.c.fired = append(h.c.fired, CFire{Jc: jc.Name, T: csec(ts), KeyOk: ok})
 	return h.real.EnqueueJobConfig(jc, ts)
 }
 
@@ -187,7 +218,7 @@ type cronRecorder struct{ c *CR }
 func (r *cronRecorder) CreatedJob(context.Context, *execution.JobConfig, *execution.Job)              {}
 func (r *cronRecorder) CreateJobFailed(context.Context, *execution.JobConfig, *execution.Job, string) {}
 func (r *cronRecorder) SkippedJobSchedule(_ context.Context, jc *execution.JobConfig, ts time.Time, _ string) {
-	r.c.skipped = append(r.c.skipped, CFire{Jc: jc.Name, T: ctick(ts)})
+	r.c.skipped = append(r.c.skipped, CFire{Jc: jc.Name, T: csec(ts), KeyOk: true})
 }
 
 func NewCR(o CronOpts, t *sw.Tracer, run int) *CR {
@@ -215,8 +246,13 @@ func NewCR(o CronOpts, t *sw.Tracer, run int) *CR {
 	}
 	c.admit = adm
 	c.W.API.Admit = adm.Admit
-	c.build()
 	return c
+}
+
+// Boot starts the controllers (informers listed, store recovered, heap initialised from the lister).
+func (c *CR) Boot() {
+	c.build()
+	c.booted = true
 }
 
 func (c *CR) build() {
@@ -234,6 +270,7 @@ func (c *CR) build() {
 	p := w.Proc("cron")
 	c.P = p
 	cc := croncontroller.NewContext(p.Context())
+	c.cc = cc
 	q := sw.NewQueue("cron")
 	cc.VerifSetQueue(q)
 	p.Queues["cron"] = q
@@ -248,20 +285,24 @@ func (c *CR) build() {
 	ctrl := reconciler.NewController(croncontroller.NewReconciler(cc, ctl, rec, st, nil), q)
 	p.Work["cron"] = ctrl.VerifWorkOnce
 	// informers start (relist), store recovers, cron worker initialises its heap from the lister
-	if c.gen > 0 {
-		w.Inf.JobConfigs.Relist(w.API.List("jobconfigs"))
-		w.Inf.Jobs.Relist(w.API.List("jobs"))
-	}
+	w.Inf.JobConfigs.Relist(w.API.List("jobconfigs"))
+	w.Inf.Jobs.Relist(w.API.List("jobs"))
 	if err := store.Recover(context.Background()); err != nil {
 		panic(err)
 	}
 	if err := c.worker.Init(); err != nil {
 		panic(err)
 	}
-	c.chanN = 0
+	c.chanN, c.chanJC = 0, nil
 }
 
-func jcName(i int) string { return fmt.Sprintf("jc%d", i) }
+// jcName: the second JobConfig has dots in its name (work-queue keys are split at dots).
+func jcName(i int) string {
+	if i == 2 {
+		return "jc2.v1.x"
+	}
+	return fmt.Sprintf("jc%d", i)
+}
 
 // ---- the pointwise due-set oracle (independent of furiko's iteration logic) ----
 
@@ -301,8 +342,11 @@ func oracleLocation(tz, def string) *time.Location {
 	panic("oracle: unknown timezone " + tz)
 }
 
-// dueTicks returns the ticks t in [0, horizon] at which the schedule is due: some single expression, parsed on its
-// own, has its next activation after (t - 1ns) exactly at t; inside [nbf, naf].
+// dueTicks returns the instants t (seconds since the base, 0 <= t <= dueHorizonSec) at which the schedule is due: some
+// single expression, parsed on its own, has its next activation after (t - 1ns) exactly at t; inside [nbf, naf].
+// CSched windows are in ticks (minutes).
+const dueHorizonSec = (cronHorizon + 45) * 60
+
 func (c *CR) dueTicks(name string, s CSched) []int {
 	out := []int{}
 	if s.None || s.Disabled {
@@ -314,6 +358,7 @@ func (c *CR) dueTicks(name string, s CSched) []int {
 	}
 	loc := oracleLocation(s.TZ, c.O.DefaultTZ)
 	var exprs []*cronexpr.Expression
+	secs := false
 	for _, e := range s.Exprs {
 		var opts []cronexpr.ParseOption
 		if c.O.HashNames {
@@ -324,12 +369,19 @@ func (c *CR) dueTicks(name string, s CSched) []int {
 			panic(fmt.Sprintf("oracle: cannot parse %q: %v", e, err))
 		}
 		exprs = append(exprs, x)
+		if len(strings.Fields(e)) == 7 {
+			secs = true
+		}
 	}
-	for t := 0; t <= cronHorizon; t++ {
-		if (s.Nbf >= 0 && t < s.Nbf) || (s.Naf >= 0 && t > s.Naf) {
+	step := 60
+	if secs {
+		step = 1 // only 7-field expressions can be due off the minute
+	}
+	for t := 0; t <= dueHorizonSec; t += step {
+		if (s.Nbf >= 0 && t < s.Nbf*60) || (s.Naf >= 0 && t > s.Naf*60) {
 			continue
 		}
-		at := ctime(t).In(loc)
+		at := time.Unix(cronBase+int64(t), 0).In(loc)
 		for _, x := range exprs {
 			if x.Next(at.Add(-time.Nanosecond)).Equal(at) {
 				out = append(out, t)
@@ -347,13 +399,13 @@ func (c *CR) projJC(o runtime.Object) CJC {
 		return CJC{Ver: -1, Nbf: -1, Naf: -1, Lu: -1, Ls: -1}
 	}
 	x := o.(*execution.JobConfig)
-	p := CJC{Ex: true, Uid: string(x.UID), Ver: -1, Nbf: -1, Naf: -1, Lu: -1, Ls: ctickp(x.Status.LastScheduled), Pol: string(x.Spec.Concurrency.Policy),
+	p := CJC{Ex: true, Uid: string(x.UID), Ver: -1, Nbf: -1, Naf: -1, Lu: -1, Ls: csecp(x.Status.LastScheduled), Pol: string(x.Spec.Concurrency.Policy),
 		MaxC: int(x.Spec.Concurrency.GetMaxConcurrency())}
 	if s := x.Spec.Schedule; s != nil {
 		p.En = !s.Disabled && s.Cron != nil
-		p.Lu = ctickp(s.LastUpdated)
+		p.Lu = csecp(s.LastUpdated)
 		if s.Constraints != nil {
-			p.Nbf, p.Naf = ctickp(s.Constraints.NotBefore), ctickp(s.Constraints.NotAfter)
+			p.Nbf, p.Naf = csecp(s.Constraints.NotBefore), csecp(s.Constraints.NotAfter)
 		}
 		cp := s.DeepCopy()
 		cp.LastUpdated = nil
@@ -367,24 +419,42 @@ func (c *CR) projJC(o runtime.Object) CJC {
 
 func (c *CR) State() CState {
 	w := c.W
-	q := c.P.Queues["cron"]
 	now := w.Clk.Now()
-	s := CState{Now: ctick(now), NowS: int((now.Unix() - cronBase) % 60), Api: map[string]CJC{}, Cache: map[string]CJC{}, HIndex: map[string]int{},
+	s := CState{Now: csec(now), Gen: c.gen, ChanJC: append([]string{}, c.chanJC...), Api: map[string]CJC{}, Cache: map[string]CJC{}, HIndex: map[string]int{},
 		Counter: map[string]int{}, HNames: []string{}, HPrio: []int{}, Wq: []string{}, Retry: []string{}, Jobs: []CJob{}, JCache: []string{}}
 	for i := 1; i <= c.O.NJC; i++ {
 		n := jcName(i)
 		s.Api[n] = c.projJC(w.API.Get("jobconfigs", ns, n))
 		s.Cache[n] = c.projJC(sw.CacheGet(w.Inf.JobConfigs, ns+"/"+n))
-		if o := sw.CacheGet(w.Inf.JobConfigs, ns+"/"+n); o != nil {
+		if o := sw.CacheGet(w.Inf.JobConfigs, ns+"/"+n); o != nil && c.booted {
 			s.Counter[n] = int(c.store.CountActiveJobsForConfig(o.(*execution.JobConfig)))
 		}
 	}
-	s.Evq, s.Jevq, s.Chan = w.Inf.JobConfigs.Pending(), w.Inf.Jobs.Pending(), c.chanN
+	s.Evq, s.Jevq = w.Inf.JobConfigs.Pending(), w.Inf.Jobs.Pending()
+	if c.booted {
+		a, u := c.cc.VerifPending()
+		s.Chan = a + u
+	}
+	s.Booted = c.booted
+	s.MaxMiss = 5
+	if c.O.MaxMissed >= 0 {
+		s.MaxMiss = c.O.MaxMissed
+	}
+	s.MaxDown = 300
+	if c.O.MaxDownMin > 0 {
+		s.MaxDown = c.O.MaxDownMin * 60
+	}
+	s.Pend = "none"
+	if !c.booted {
+		s.Quiet = false
+		return s
+	}
+	q := c.P.Queues["cron"]
 	if sch := c.worker.VerifSchedule(); sch != nil {
 		names, prios, index := sch.VerifSnapshot()
 		for i, n := range names {
 			s.HNames = append(s.HNames, strings.TrimPrefix(n, ns+"/"))
-			s.HPrio = append(s.HPrio, int((int64(prios[i])-cronBase)/60))
+			s.HPrio = append(s.HPrio, int(int64(prios[i])-cronBase))
 		}
 		for k, v := range index {
 			s.HIndex[strings.TrimPrefix(k, ns+"/")] = v
@@ -406,6 +476,7 @@ func (c *CR) State() CState {
 				cj.Jc = r.Name
 				cj.OwnerOk = r.Kind == execution.KindJobConfig
 				cj.LabelOk = j.Labels[jobconfig.LabelKeyJobConfigUID] == string(r.UID)
+				cj.Uid = string(r.UID)
 			}
 		}
 		if nctl != 1 {
@@ -413,8 +484,7 @@ func (c *CR) State() CState {
 		}
 		if v, ok := j.Annotations[jobconfig.AnnotationKeyScheduleTime]; ok {
 			if u, err := strconv.ParseInt(v, 10, 64); err == nil {
-				cj.Sched = int((u - cronBase) / 60)
-				cj.SchedS = int((u - cronBase) % 60)
+				cj.Sched = int(u - cronBase)
 				cj.NameOk = j.Name == fmt.Sprintf("%s-%d", cj.Jc, u)
 			}
 		}
@@ -433,9 +503,9 @@ func (c *CR) State() CState {
 	if c.O.MaxMissed >= 0 {
 		s.MaxMiss = c.O.MaxMissed
 	}
-	s.MaxDown = 5
+	s.MaxDown = 300
 	if c.O.MaxDownMin > 0 {
-		s.MaxDown = c.O.MaxDownMin
+		s.MaxDown = c.O.MaxDownMin * 60
 	}
 	s.Quiet = !s.InSync && len(s.Wq) == 0 && len(s.Retry) == 0 && s.Evq == 0 && s.Jevq == 0 && s.Chan == 0
 	return s
@@ -565,8 +635,18 @@ func (c *CR) UserSet(l Label, s CSched) bool {
 // Apply executes one label.
 func (c *CR) Apply(l Label) bool {
 	w := c.W
-	q := c.P.Queues["cron"]
+	var q *sw.Queue
+	if c.booted {
+		q = c.P.Queues["cron"]
+	} else if l.A != "UserSet" && l.A != "UserDelete" && l.A != "Tick" && l.A != "Boot" && l.A != "DeliverJC" {
+		return false
+	}
 	switch l.A {
+	case "Boot":
+		if c.booted {
+			return false
+		}
+		c.Boot()
 	case "UserSet": // C jc, J due-set id (0 none), S disabled, I nbf, R naf (0 = none), P policy
 		nbf, naf := -1, -1
 		if l.I > 0 {
@@ -606,7 +686,7 @@ func (c *CR) Apply(l Label) bool {
 			// the cron worker is its own goroutine in production; Work is atomic here (deviation named in spec/Cron.tla)
 		}
 		c.worker.Work()
-		c.chanN = 0
+		c.chanN, c.chanJC = 0, nil
 	case "StatusSync": // the jobconfig controller's status write, reduced to lastScheduled (monotone maximum over its Jobs)
 		name := jcName(l.C)
 		cur := c.jcObj(name)
@@ -735,8 +815,8 @@ func (c *CR) randSched(rng *rand.Rand) CSched {
 	}
 	for i := 0; i < n; i++ {
 		e := cronExprPool[rng.Intn(len(cronExprPool))]
-		if c.O.Format == "quartz" && len(strings.Fields(e)) == 5 {
-			e = "0 " + e // quartz requires the seconds field
+		for !c.O.HashNames && strings.Contains(e, "H") {
+			e = cronExprPool[rng.Intn(len(cronExprPool))] // H fields need cronHashNames
 		}
 		s.Exprs = append(s.Exprs, e)
 	}
@@ -757,12 +837,37 @@ type CRSummary struct {
 	Runs        int            `json:"runs"`
 	Lines       int            `json:"lines"`
 	Steps       int            `json:"steps"`
+	Requests    int            `json:"requests"`
 	Diverged    int            `json:"diverged"`
 	DivergedAt  map[string]int `json:"diverged_at"`
 	Labels      map[string]int `json:"labels"`
 	DrainFailed int            `json:"drain_failed"`
 	Faults      int            `json:"faults"`
 	Fired       int            `json:"fired"`
+	Compared    int            `json:"compared"`
+	Drift       int            `json:"drift"`
+	DriftAt     map[string]int `json:"drift_at"`
+}
+
+// matches compares the specification's digest with the real state.
+func (c *CR) matches(e *CExp) bool {
+	s := c.State()
+	if len(s.Jobs) != e.Jobs || len(s.Wq) != e.Wq || len(s.Retry) != e.Rt || s.Chan != e.Ch {
+		return false
+	}
+	for i, h := range e.H {
+		n := jcName(i + 1)
+		got := -1
+		for k, hn := range s.HNames {
+			if hn == n {
+				got = s.HPrio[k]
+			}
+		}
+		if (h < 0) != (got < 0) || (h >= 0 && got != h*60) {
+			return false
+		}
+	}
+	return true
 }
 
 func CronMain(args []string) (interface{}, error) {
@@ -785,7 +890,7 @@ func CronMain(args []string) (interface{}, error) {
 	bw := bufio.NewWriterSize(f, 1<<20)
 	defer bw.Flush()
 	tr := sw.NewTracer(bw)
-	sum := &CRSummary{DivergedAt: map[string]int{}, Labels: map[string]int{}}
+	sum := &CRSummary{DivergedAt: map[string]int{}, DriftAt: map[string]int{}, Labels: map[string]int{}}
 	rng := rand.New(rand.NewSource(*seed))
 	apply := func(c *CR, l Label) bool {
 		nf := len(c.fired)
@@ -811,6 +916,25 @@ func CronMain(args []string) (interface{}, error) {
 			c := NewCR(o, tr, r)
 			c.emit("Reset", Label{A: "Reset"}, nil, -1, nil)
 			pols := []string{"Allow", "Allow", "Forbid", "Enqueue"}
+			// JobConfigs that exist before the controller starts (the rest are created while it runs)
+			for i := 1; i <= o.NJC; i++ {
+				if rng.Intn(3) != 0 {
+					var s CSched
+					if *std {
+						s = stdSched(1+rng.Intn(3), false, -1, -1)
+					} else {
+						s = c.randSched(rng)
+					}
+					if c.UserSet(Label{A: "UserSet", C: i, P: pols[rng.Intn(len(pols))]}, s) {
+						sum.Steps++
+						sum.Labels["UserSet"]++
+					}
+					if rng.Intn(3) == 0 {
+						apply(c, Label{A: "Tick", D: 1 + rng.Intn(3)})
+					}
+				}
+			}
+			apply(c, Label{A: "Boot"})
 			restarts := rng.Intn(3)
 			for s := 0; s < *steps; s++ {
 				var en []Label
@@ -924,10 +1048,20 @@ func CronMain(args []string) (interface{}, error) {
 			c := NewCR(s.Cfg, tr, r)
 			c.emit("Reset", Label{A: "Reset"}, nil, -1, nil)
 			for _, l := range s.Steps {
+				ce := l.CE
+				l.CE = nil
 				if !apply(c, l) {
 					sum.Diverged++
 					sum.DivergedAt[l.A]++
 					break
+				}
+				if ce != nil {
+					sum.Compared++
+					if !c.matches(ce) {
+						sum.Drift++
+						sum.DriftAt[l.A]++
+						break // the rest of the behaviour is no longer the specification's
+					}
 				}
 			}
 			if !c.Finale(4000) {
